@@ -10,6 +10,21 @@ COMMON_NOTE = ("Trusted: Lean 4.33 kernel + Mathlib v4.33; axioms limited to pro
                "The tie between the Lean definitions and /repo is re-established on every run: ")
 
 CLAIMED = {
+    "C08": dict(
+        text=("Exhaustive over ring counts 2..20 (as the property states): the subchannel/pin tables the running code "
+              "builds are dumped and the Lean kernel decides (decide +kernel, no axioms beyond the standard three) type "
+              "counts, symmetric neighbour relation, neighbour count per type, coverage of neighbour-type classes by "
+              "the step-limit function, swirl donor maps being mutually inverse permutations, pin<->subchannel "
+              "incidence with fractions summing to one, and the duct/bypass ring pattern for 1-3 ducts; soundness "
+              "lemmas turn the Boolean certificates into propositions.  Geometry: Lean theorems over the trace of "
+              "calculate_geometry with a SYMBOLIC ring count prove, for all n and all dimensions, that flow areas + "
+              "pins + wires tile the inner hexagon (SE2 flag on/off) and that duct and bypass cells tile their annuli."),
+        note=COMMON_NOTE + ("T2 table dump (encoder round-trip tested; decoder in Lean) and T1 trace with symbolic n.  "
+                            "Partial: centroid coordinates (agreement with adjacency, six-fold symmetry) are checked "
+                            "numerically on real bundles for every n, not modelled in Lean; ring counts > 20 are not "
+                            "covered (the property does not ask for them)."),
+        technique="Lean 4 kernel-decided table certificates (decide +kernel) + proofs over traced geometry + numeric oracle",
+        design="5/C08"),
     "C11": dict(
         text=("Lean theorems (any ordered field, all positive film coefficients / conductivity / thickness, any "
               "temperatures and heating) that the duct-wall closed forms satisfy Fourier's law at both faces, the "
